@@ -152,11 +152,52 @@ def anchored_required_cases(rng, n):
     return out
 
 
+YAML_SPELLINGS = [
+    "p: !vault {M}\n", "p: !env {M}\nq: 1\n", "l:\n- !vault {M}\n- x\n", "p: !Ref {M}\n", "p: !!str {M}\n", "p: \"{M}\"\n", "p: '{M}'\n",
+    "a: &x {M}\nb: *x\n", "a: &x !vault {M}\nb: *x\n", "d: &d {{k: !vault {M}}}\ne: {{<<: *d}}\n", "{M}: 1\n", "? {M}\n: 1\n", "? !vault {M}\n: 1\n",
+    "p: !!binary JHJlcXVpcmVk\n", "p: !<tag:example.com,2000:x> {M}\n", "p: ! {M}\n", "p: !!python/name {M}\n", "--- !vault {M}\n",
+    "m: !vault\n  k: {M}\n", "l: !seq\n- {M}\n"]
+
+
+def yaml_spelling_stage(rep):
+    """every lexical way YAML has to write a scalar (tags of all kinds, quoting, anchors, merge keys, key position) around a marker:
+    whatever the reader makes of it, a SUCCESSFUL evaluation never prints a marker (direct oracle; no model involved)"""
+    import formats
+    from cli import run_cli, write_files, Workdir, pmap
+    jobs = [(t.replace("{M}", m), layered) for t in YAML_SPELLINGS for m in ("$required", "$delete", "$bogus", "$merge:nosuch")
+            for layered in (False, True)]
+
+    def one(job):
+        text, layered = job
+        with Workdir() as d:
+            write_files(d, {"a.yaml": text, "a.b.yaml": "other: 1\n"})
+            outs = []
+            for f in ("json", "yaml", "toml"):
+                r = run_cli("bkl", ["-f", f, "a.b.yaml" if layered else "a.yaml"], d)
+                outs.append((f, r["rc"], r["out"], r["err"][:160]))
+            return outs
+    for (text, layered), outs in zip(jobs, pmap(one, jobs)):
+        rep.case(["yaml-spelling", text, layered], True)
+        for f, rc, out, err in outs:
+            rep.count(f"yaml-spelling:rc{rc}")
+            if rc != 0:
+                continue
+            try:
+                docs = formats.load_all(f, out)
+            except Exception:
+                docs = [out]
+            if any(scan(x) for x in docs) and len(rep.violations) < 6:
+                rep.violation("an unresolved $required / directive reached the output (YAML spelling of the marker)",
+                              {"case": {"yamlspelling": {"text": text, "layered": layered, "format": f}}, "output": out[:300]})
+
+
 def run(rep):
     standard_run(rep, PID, gen_case, nontrivial, "marker handling differs", 4000, 200000,
                  "1-3 layer chains with $required sprinkled over map values/list entries and directive-shaped keys/strings "
                  "(known, unknown, misspelt, misplaced) injected anywhere, incl. under $output:false and inside $encode subtrees; "
                  "non-trivial = contains a $ string", oracle=oracle, extra_gens=[small_scope(PID)])
+    if len(rep.violations) < 5:
+        yaml_spelling_stage(rep)
     if len(rep.violations) < 5:
         import random
         import fscheck
@@ -165,6 +206,19 @@ def run(rep):
 
 
 def replay(rep, payload):
+    if "yamlspelling" in payload.get("case", {}):
+        from cli import run_cli, write_files, Workdir
+        import formats
+        c = payload["case"]["yamlspelling"]
+        with Workdir() as d:
+            write_files(d, {"a.yaml": c["text"], "a.b.yaml": "other: 1\n"})
+            r = run_cli("bkl", ["-f", c["format"], "a.b.yaml" if c["layered"] else "a.yaml"], d)
+        print(r["rc"], r["out"], r["err"])
+        try:
+            bad = r["rc"] == 0 and any(scan(x) for x in formats.load_all(c["format"], r["out"]))
+        except Exception:
+            bad = r["rc"] == 0 and scan(r["out"])
+        return 1 if bad else 0
     if "filechain" in payload.get("case", {}):
         import fscheck
         return fscheck.file_chain_replay(payload["case"]["filechain"])
